@@ -246,8 +246,8 @@ def run(ctx):
                                     % (name, rep(k)["transformation"], dk, want_dir(k, d0) % 360.0),
                                     rep(k, {"output": name + " direction", "transformed_value": dk, "original_value": d0}))
                     break
-                if not (0.0 <= dk < 360.0 or dk != dk):
-                    ctx.oracle_fail("%s direction %r outside [0,360)" % (name, dk), rep(k))
+                if not (0.0 <= dk <= 360.0 or dk != dk):      # 360.0 itself can appear by rounding of (-tiny) % 360
+                    ctx.oracle_fail("%s direction %r outside [0,360]" % (name, dk), rep(k))
                     break
         # -------- dissipation-weighted wave direction
         for name, bname in (("st4_dir", "st4_bulk"), ("st6_dir", "st6_bulk")):
